@@ -88,6 +88,7 @@ def api_snapshot(p):
             "fill_multi": bool(f.multiple_universes and f.universes is not None),
         })
     return {"mode": mode, "cells": cells, "flags": [bool(p.print_in_data_block[k]) for k in CLASSES],
+            "imp_outside_mode": any(pshort(x) not in mode for c in p.cells for x in c.importance),
             "vol_calc": bool(p.cells.allow_mcnp_volume_calc)}
 
 
@@ -310,6 +311,10 @@ def judge_write(api, text, den, err, check_block=True):
             return None  # documented refusal: FILL with a transform / matrix cannot be printed in the data block
         if err == "ParticleTypeNotInCell" and flags["imp"] and any(c["imp"][m] is None for c in api["cells"] for m in api["mode"]):
             return None  # deliberate refusal: an IMP vector cannot have a hole, and some cell holds no importance for a particle of MODE
+        if err == "ParticleTypeNotInProblem" and api.get("imp_outside_mode"):
+            # a cell holds an importance for a particle that is not in MODE (imp:n,p=1 without a MODE card): outside
+            # the quantifier (well-formed problems); MontePy's deliberate refusal, C13's business
+            return None
         if err == "IllegalState":
             return None  # validate() refuses an incomplete object (no geometry, density without material): deliberate, not per-cell data
         return ("write-raised", _guess_datum(err), err)
@@ -387,7 +392,10 @@ def after_terminator(text):
     return [l for l in lines[i:] if l.strip()]
 
 
-def signature(cls, datum, api, ops_before):
+def signature(cls, datum, api, ops_before, error=None):
     flags = dict(zip(CLASSES, api["flags"]))
-    return {"mechanism": "cell-data", "class": cls, "datum": datum,
-            "flags": (flags.get(datum) if datum in flags else None), "history": history_kind(ops_before)}
+    sig = {"mechanism": "cell-data", "class": cls, "datum": datum,
+           "flags": (flags.get(datum) if datum in flags else None), "history": history_kind(ops_before)}
+    if error is not None:
+        sig["error"] = error  # the exception class: shrinking must not drift from one leak to another refusal
+    return sig
